@@ -338,6 +338,10 @@ func parseSpecFile(path string, goFile bool, defaultPkg string) (*SpecFile, erro
 				return nil, fail(cl, err)
 			}
 			cur.PanicsOnly = e
+		case "isfunc":
+			// `isfunc`: the function is a deterministic function of its arguments (checked syntactically on the body);
+			// call sites may then use the function symbols fn_<Name>_<i>(args) / fnok_<Name>(args)
+			cur.Pure = true
 		case "ints":
 			cur.IntsBV = rest == "bv"
 		case "inline":
